@@ -138,7 +138,7 @@ def stepSetOp (R : Render K Unit) (other : Nat → Raw K Unit) : SetOp K Q → S
     let (items, remaining, _) ← drainOp E take forget
     pure (.list [.list (items.map fun p => .key p.1), .nat remaining])
   | .into_iter take forget => do
-    let (items, remaining, _) ← intoIterOp E take forget
+    let (items, remaining, _) ← intoIterOp E .keys take forget
     pure (.list [.list (items.map fun p => .key p.1), .nat remaining])
   | .iter script => do pure (.list (← iterOp R .keys id script))
   | .clone_to _ => pure .unit
@@ -186,7 +186,7 @@ def assignMap (sys : Sys K V Q) (dst cap : Nat) (build : SM K V Q Unit) : Res (S
   | .ub => .ub
   | .panic c s => .panic c { sys with w := s.w }
   | .ok _ s =>
-    match dropMap E ⟨sys.maps dst, s.w⟩ with
+    match dropAndRenew E ⟨sys.maps dst, s.w⟩ with
     | .ub => .ub
     | .panic c s' => .panic c { sys with maps := updReg sys.maps dst s.r, w := s'.w }
     | .ok _ s' => .ok () { sys with maps := updReg sys.maps dst s.r, w := s'.w }
@@ -196,7 +196,7 @@ def assignSet (sys : Sys K V Q) (dst cap : Nat) (build : SM K Unit Q Unit) : Res
   | .ub => .ub
   | .panic c s => .panic c { sys with w := sys.w.mergeUnit s.w }
   | .ok _ s =>
-    match dropMap E.toUnit ⟨sys.sets dst, s.w⟩ with
+    match dropAndRenew E.toUnit ⟨sys.sets dst, s.w⟩ with
     | .ub => .ub
     | .panic c s' => .panic c { sys with sets := updReg sys.sets dst s.r, w := sys.w.mergeUnit s'.w }
     | .ok _ s' => .ok () { sys with sets := updReg sys.sets dst s.r, w := sys.w.mergeUnit s'.w }
